@@ -74,7 +74,7 @@ pub struct RunStat {
 
 pub fn run_scenario(cfg: &Cfg) -> RunStat {
   let fl = flavour(&cfg.flavour);
-  let cap = if fl.kind == "q" && fl.bounded { cfg.cap } else { 0 };
+  let cap = if (fl.kind == "q" || fl.kind == "bc") && fl.bounded { cfg.cap } else { 0 };
   let mut rng = StdRng::seed_from_u64(cfg.seed);
   let (t0, r0) = make(&cfg.flavour, cfg.cap.max(1));
   let tinfo = t0.info();
